@@ -51,6 +51,8 @@ TOTAL = {
     "PartialEq::eq": "derived/primitive", "PartialEq::ne": "derived/primitive", "PartialOrd::lt": "primitive", "PartialOrd::le": "primitive",
     "PartialOrd::gt": "primitive", "PartialOrd::ge": "primitive", "PartialOrd::partial_cmp": "primitive/derived",
     "RangeInclusive::<Idx>::new": "pure", "RangeInclusive::<Idx>::contains": "pure", "Range::<Idx>::contains": "pure",
+    "BitXor::bitxor": "bit operation on primitives (operator overloads of workspace types resolve to workspace bodies)",
+    "BitAnd::bitand": "bit operation on primitives", "BitOr::bitor": "bit operation on primitives", "Not::not": "bit operation on primitives",
     "mem::size_of": "const", "mem::swap": "pure", "mem::take": "pure", "mem::replace": "pure",
     # iterator adapters: lazy constructors; consumers run the closures (analysed as their own bodies) and finite sources
     "Iterator::next": "advances a std iterator", "Iterator::chain": "lazy", "Iterator::map": "lazy", "Iterator::collect": "alloc only",
